@@ -118,18 +118,11 @@ def writeLastEmpty (s : Sto) : Out Sto := do
 
 def log2 (n : Nat) : Nat := Nat.log2 n
 
-/-- `kNumExtraBits` of `StoreCommands` -/
-def kNumExtraBits : List Nat := [
-  0, 0, 0, 0, 0, 0, 1, 1, 2, 2, 3, 3, 4, 4, 5, 5, 6, 7, 8, 9, 10, 12, 14, 24, 0, 0, 0, 0, 0,
-  0, 0, 0, 1, 1, 2, 2, 3, 3, 4, 4, 0, 0, 0, 0, 0, 0, 0, 0, 1, 1, 2, 2, 3, 3, 4, 4, 5, 5, 6,
-  7, 8, 9, 10, 24, 0, 0, 0, 0, 0, 0, 0, 0, 0, 0, 0, 0, 0, 0, 0, 0, 1, 1, 2, 2, 3, 3, 4, 4, 5,
-  5, 6, 6, 7, 7, 8, 8, 9, 9, 10, 10, 11, 11, 12, 12, 13, 13, 14, 14, 15, 15, 16, 16, 17, 17,
-  18, 18, 19, 19, 20, 20, 21, 21, 22, 22, 23, 23, 24, 24]
+/-- `kNumExtraBits` of `StoreCommands` (generated from the source) -/
+def kNumExtraBits : List Nat := BV.Gen.kFragNumExtraBits
 
-/-- `kInsertOffset` of `StoreCommands` -/
-def kInsertOffset : List Nat := [
-  0, 1, 2, 3, 4, 5, 6, 8, 10, 14, 18, 26, 34, 50, 66, 98, 130, 194, 322, 578, 1090, 2114,
-  6210, 22594]
+/-- `kInsertOffset` of `StoreCommands` (generated from the source) -/
+def kInsertOffset : List Nat := BV.Gen.kFragInsertOffset
 
 /-- `code | extra << 8` on `u32` -/
 def cmdWord (code extra : Nat) : Nat := (code ||| (extra * 256) % two32) % two32
@@ -633,6 +626,27 @@ def q1Symbol (code : Nat) : Nat :=
   else 384 + (code - 56)
 
 open BV.MetaBlock BV.PrefixArith BV.Recoder in
+/-- the copy half of one RFC command: `pos` = bytes of the meta-block produced so far (the insert
+included), `out` = output so far, `imp` = "distance symbol 0 is implied by the command symbol",
+`cs` = the following command words (the first one must be a distance code when `imp` is false) -/
+def stepTail (wo : WordOracle) (window mlen : Nat) (imp : Bool) (cs lits : List Nat) (pos cl : Nat)
+    (out : Bytes) (ring : List Int) : Option (RdSt ⊕ (List Nat × List Nat × Nat × RdSt)) :=
+  if pos = mlen then
+    (if cs.isEmpty ∧ lits.isEmpty then some (.inl ⟨out, ring⟩) else none)
+  else if imp then
+    match applyCopy wo window 0 0 mlen pos cl out ring 0 0 with
+    | none => none
+    | some (n, st') => some (.inr (cs, lits, pos + n, st'))
+  else
+    match cs with
+    | [] => none
+    | dcmd :: cs' =>
+      if dcmd % 256 < 64 ∨ dcmd % 256 ≥ 128 ∨ dcmd / 256 ≥ 2 ^ kNumExtraBits.getD (dcmd % 256) 0 then none else
+      match applyCopy wo window 0 0 mlen pos cl out ring (dcmd % 256 - 64) (dcmd / 256) with
+      | none => none
+      | some (n, st') => some (.inr (cs', lits, pos + n, st'))
+
+open BV.MetaBlock BV.PrefixArith BV.Recoder in
 /-- One RFC command of a two-pass command buffer (one or two command words): `none` = rejected,
 `inl st` = the meta-block is complete in state `st`, `inr (cs, lits, done, st)` = continue.
 `done` = bytes of the meta-block produced so far, `st` = the reader state (output so far, distance
@@ -651,22 +665,8 @@ def stepQ1 (wo : WordOracle) (window mlen : Nat) (cmd : Nat) (cs lits : List Nat
     let ins := if code < 24 then ib + extra else ib
     let cl := if code < 24 then cb else cb + extra
     if ins > lits.length ∨ ins > mlen - done then none else
-    if done + ins = mlen then
-      (if cs.isEmpty ∧ (lits.drop ins).isEmpty then some (.inl ⟨st.out ++ lits.take ins, st.ring⟩) else none)
-    else if (rfcCmdDecode (q1Symbol code)).2.2 then
-      -- implicit distance symbol 0
-      match applyCopy wo window 0 0 mlen (done + ins) cl (st.out ++ lits.take ins) st.ring 0 0 with
-      | none => none
-      | some (n, st') => some (.inr (cs, lits.drop ins, done + ins + n, st'))
-    else
-      match cs with
-      | [] => none
-      | dcmd :: cs' =>
-        if dcmd % 256 < 64 ∨ dcmd % 256 ≥ 128 ∨ dcmd / 256 ≥ 2 ^ kNumExtraBits.getD (dcmd % 256) 0 then none else
-        match applyCopy wo window 0 0 mlen (done + ins) cl (st.out ++ lits.take ins) st.ring (dcmd % 256 - 64)
-            (dcmd / 256) with
-        | none => none
-        | some (n, st') => some (.inr (cs', lits.drop ins, done + ins + n, st'))
+    stepTail wo window mlen (rfcCmdDecode (q1Symbol code)).2.2 cs (lits.drop ins) (done + ins) cl
+      (st.out ++ lits.take ins) st.ring
   | _, _ => none
 
 open BV.MetaBlock BV.Recoder in
@@ -682,8 +682,9 @@ def replayGo (wo : WordOracle) (window mlen : Nat) : Nat → List Nat → List N
     | some (.inr (cs', lits', done', st')) => replayGo wo window mlen f cs' lits' done' st'
 
 open BV.MetaBlock BV.Recoder in
-/-- Replay of a two-pass command buffer against the RFC semantics: the final reader state -/
+/-- Replay of a two-pass command buffer against the RFC semantics: the final reader state
+(at most `mlen` RFC commands: each one produces at least one byte) -/
 def replayQ1 (wo : WordOracle) (window mlen : Nat) (cmds lits : List Nat) (done : Nat) (st : RdSt) : Option RdSt :=
-  replayGo wo window mlen (cmds.length + 1) cmds lits done st
+  replayGo wo window mlen (mlen + 1) cmds lits done st
 
 end BV.Fragment
